@@ -86,10 +86,11 @@ class DBSpace(data_algebra.data_space.DataSpace):
         :param key: key to remove
         """
         assert isinstance(key, str)
+        descr = self.description_map[key]  # force check table is known
+        self.db_handle.drop_table(key)
         del self.description_map[key]
         if key in self.eligable_for_auto_drop_list:
             self.eligable_for_auto_drop_list.remove(key)
-        self.db_handle.drop_table(key)
 
     def keys(self) -> Set[str]:
         """
